@@ -65,7 +65,10 @@ def _build(case):
 def _build2(case):
     """the constructed tensor, or (result, source tensor) for constructors that take a tensor"""
     ft = H.ft()
-    d, dflt, n = case["d"], case["dflt"], case["n"]
+    # "d" is rewritten by run() to the depth of the tensor that was built (what the model is asked about); the depth
+    # the case was generated with stays in "d0" so that running the case again builds the same thing
+    case.setdefault("d0", case["d"])
+    d, dflt, n = case["d0"], case["dflt"], case["n"]
     ids = [chr(ord("A") + k) for k in range(d)]
     rng = random.Random(case["cseed"])
     base = lambda: ft.Tensor.fromFiber(rank_ids=ids, fiber=H.build_fiber(case["t"], d, dflt), default=dflt)
